@@ -415,7 +415,7 @@ def gcov_lines(repo, d, lines):
     exe = os.path.join(cov, "futex_cov")
     subprocess.run(["gcc", "-O0", "-g", "-w", "--coverage", "-DWASM_THREADS_PTHREADS", "-I", fs.SCHED, "-I", os.path.join(repo, "w2c2"),
                     "-I", os.path.join(repo, "futex")] + srcs + objs + fs.wrap_flags() + ["-o", exe, "-lpthread", "-lm"], check=True)
-    fs.run_lines(exe, [ln for ln in lines if ln.startswith("seed ")], timeout=900)
+    fs.run_lines(exe, [ln for ln in lines if ln.startswith("seed ")], timeout=900, jobs=1)
     res = {}
     for f in ("futex", "list", "map"):
         p = subprocess.run(["gcov", "-o", cov, os.path.join(cov, f + ".o")], cwd=cov, stdout=subprocess.PIPE, stderr=subprocess.PIPE, text=True)
